@@ -54,5 +54,8 @@ def _record_exception(context, t, v, tb):
 
 hub.print_exception = _record_exception
 
+import warnings  # noqa: E402
+warnings.filterwarnings('ignore', category=DeprecationWarning)
+
 import scales  # noqa: E402,F401
 assert os.path.abspath(scales.__file__).startswith(os.path.abspath(REPO)), scales.__file__
